@@ -82,3 +82,30 @@ pub fn memo_dump(kind: &str, text: &str, names: &str) -> String {
     out.sort();
     out.join(",")
 }
+
+const RUST_KW: &[&str] = &["const", "static", "type", "struct", "enum", "use", "mod", "fn", "let", "match", "loop", "while", "for", "if", "else", "return", "break", "continue", "ref", "mut", "move", "pub", "crate", "super", "self", "trait", "impl", "where", "unsafe", "extern", "dyn", "async", "await", "in", "as", "true", "false", "final", "virtual", "override", "priv", "typeof", "unsized", "yield", "try", "macro", "abstract", "become", "box", "do"];
+
+thread_local!(static NAMES: std::cell::RefCell<Vec<&'static str>> = std::cell::RefCell::new(vec![]));
+
+/// canonical hash of this thread's packrat table as left by the last parse of `text` (same definition as the model's `memoHash`):
+/// entries (production index, position, in-directive flag, stored length + 1 | 0) in lexicographic order
+pub fn memo_hash(text: &str, workdir: &str) -> u64 {
+    NAMES.with(|n| {
+        if n.borrow().is_empty() {
+            let src = std::fs::read_to_string(format!("{}/names.txt", workdir)).unwrap();
+            *n.borrow_mut() = src.split_whitespace().map(|x| { let s = if RUST_KW.contains(&x) { format!("r#{}", x) } else { x.to_string() }; let l: &'static str = Box::leak(s.into_boxed_str()); l }).collect();
+        }
+        let mut h = crate::util::Fnv::new();
+        for (idx, name) in n.borrow().iter().enumerate() {
+            for pos in 0..=text.len() {
+                let ptr = unsafe { text.as_ptr().add(pos) };
+                for dir in [false, true] {
+                    if let Some(v) = verif::memo_probe(name, ptr, dir) {
+                        h.add(idx as u64); h.add(pos as u64); h.add(dir as u64); h.add(match v { Some(l) => l as u64 + 1, None => 0 });
+                    }
+                }
+            }
+        }
+        h.0
+    })
+}
